@@ -215,6 +215,7 @@ class Frame:
         self.module = module      # real module object
         self.self_cls = None      # class for zero-arg super()
         self.loop_ordinal = 0
+        self.loop_entry = {}      # (qualname, ordinal) -> slot values at loop entry (for invariants)
         self.yielded = None       # generator output collector (python list) or None
 
 
@@ -262,6 +263,50 @@ def field_slot(name, objexpr, field, ty):
     sl.obj = objexpr
     sl.field = field
     return sl
+
+
+def yield_slot(ty, name="yielded"):
+    """The output of the enclosing generator as a Seq value of element type `ty`."""
+    from .values import TSeq
+    sty = TSeq(ty)
+
+    def g(ex, fr):
+        gf = ex._gen_frame(fr)
+        return seq_of_items(ex, gf.yielded, sty)
+
+    def s(ex, fr, v):
+        gf = ex._gen_frame(fr)
+        gf.yielded[:] = [_YieldFrom(v)]
+
+    sl = Slot(name, sty, g, s)
+    sl.is_yield = True
+    return sl
+
+
+def seq_of_items(ex, items, sty):
+    """python list of yielded items (values / _YieldFrom chunks) -> SV Seq"""
+    parts = []
+    for it in items:
+        if isinstance(it, _YieldFrom):
+            v = it.v
+            if is_sym(v) and v.ty.kind == "seq":
+                parts.append(v.t)
+            else:
+                for x in ex.models.as_list(ex, v):
+                    parts.append(z3.Unit(_elem_term(x, sty.inner)))
+        else:
+            parts.append(z3.Unit(_elem_term(it, sty.inner)))
+    if not parts:
+        return SV(z3.Empty(sty.sort()), sty)
+    return SV(parts[0] if len(parts) == 1 else z3.Concat(*parts), sty)
+
+
+def _elem_term(x, ety):
+    if isinstance(x, NTVal):
+        return x.term()
+    if is_sym(x):
+        return coerce(x, ety).t
+    return ety.lift(x)
 
 
 class LoopSpec:
@@ -1100,6 +1145,9 @@ class Ex:
                 _, f, name = w
                 if f is fr and name in pre_locals and name not in ok_locals:
                     raise Unsupported(f"loop {key} assigns local {name!r} that is not in its declared state")
+            elif w[0] == "yield":
+                if not any(getattr(sl, "is_yield", False) for sl in spec.slots):
+                    raise Unsupported(f"loop {key} yields but its declared state has no yield slot")
             elif w[0] == "field":
                 _, obj, field = w
                 if getattr(obj, "_born", None) is log:
@@ -1121,6 +1169,7 @@ class Ex:
         self.assume(n >= 0)
         # 1. invariant holds on entry
         vals0 = self._loop_state(spec, fr)
+        fr.loop_entry[key] = vals0
         zero = z3.IntVal(0)
         if spec.using:
             for u in spec.using(self, fr, zero, vals0):
@@ -1191,6 +1240,7 @@ class Ex:
     def sym_while(self, s, fr, spec, key):
         name = spec.name or f"{fr.fi.qualname.split('.')[-1]}#loop{key[1]}"
         vals0 = self._loop_state(spec, fr)
+        fr.loop_entry[key] = vals0
         k0 = z3.IntVal(0)
         if spec.using:
             for u in spec.using(self, fr, k0, vals0):
@@ -1689,12 +1739,20 @@ class Ex:
         hook = getattr(self.unit, "on_yield", None)
         if hook is not None and g.fi.qualname == getattr(self.unit, "yield_hook_func", None):
             return hook(self, g, v)
+        if self.nofork:
+            raise _WouldFork()
+        if self.writes is not None:
+            self.writes.append(("yield", g))
         g.yielded.append(v)
         return None
 
     def ev_YieldFrom(self, e, fr):
         v = self.eval(e.value, fr)
         g = self._gen_frame(fr)
+        if self.nofork:
+            raise _WouldFork()
+        if self.writes is not None:
+            self.writes.append(("yield", g))
         g.yielded.append(_YieldFrom(v))
         return None
 
@@ -1834,7 +1892,9 @@ def _jsonable(v):
         return v
     if isinstance(v, enum.Enum):
         return f"{type(v).__name__}.{v.name}"
-    if isinstance(v, (fractions.Fraction, decimal.Decimal)):
+    if isinstance(v, fractions.Fraction):
+        return f"{v.numerator}/{v.denominator}" if v.denominator != 1 else str(v.numerator)
+    if isinstance(v, decimal.Decimal):
         return str(v)
     if isinstance(v, tuple) and hasattr(v, "_fields"):
         return {"__nt__": type(v).__name__, **{f: _jsonable(x) for f, x in zip(v._fields, v)}}
